@@ -331,6 +331,25 @@ PROPS = {
                       'SVD and weighted paths',
         'level_note': 'finite problem catalogue; tolerances from the normal-equation error bound',
     },
+    'C08': {
+        'sources': ['src/pointset/KdTree.cpp'],
+        'harness': 'c08_kdtree.cpp',
+        'flavour': 'plain',
+        'level': 'exploration',
+        'engine': 'lattice',
+        'rule': 'small scope: every multiset of 1..5 points of a 3x3 / 2x2x2 lattice (ties and exact duplicates by '
+                'construction), both storage orders, index rebuilt at leaf sizes 10/1/2, queries on a half-step lattice and '
+                '1e6 away, every k<=n; structured: lattices up to 5000 points, collinear, coplanar, r-fold duplicates, two '
+                'clusters, all eight point types, every k in 1..min(n,50). evaluation = one query at one k compared with '
+                'brute force; non-trivial = k>1.',
+        'assumptions': ['distances compared within 4 eps relative (same scalar type, same summation order as the metric adaptor)'],
+        'tiers': {'quick': {'deadline': 400, 'case_timeout': 120}, 'thorough': {'deadline': 3000, 'case_timeout': 600}},
+        'technique': 'bounded-exhaustive small-scope enumeration of point multisets x queries x k on the real index, brute-force oracle; structured large sets',
+        'level_text': 'small-scope hypothesis made exhaustive: all point multisets up to 5 points of a lattice, every leaf '
+                      'size that changes the tree shape, every query of a half-step lattice and every k; plus structured '
+                      'sets up to 5000 points for the shipped leaf size',
+        'level_note': 'sets larger than 5 points are structured, not exhaustive',
+    },
 }
 
 ENGINES = [
